@@ -68,7 +68,8 @@ SPECS["C20"] = {
     "expect_reach": ["clock_back", "clock_jump", "clock_stall", "consumer_abandoned", "source_raised",
                      "lengthless_source", "wrong_total", "out_of_order_completion", "straggler", "exact_tie",
                      "more_workers_than_chunks", "empty_input", "chunk_larger_than_input", "single_worker",
-                     "isplit_sweep_row", "sort_with_ties"],
+                     "isplit_sweep_row", "sort_with_ties", "worker_process_killed", "task_raised",
+                     "pmap_call_after_a_failed_one", "earlier_pmap_calls_in_the_same_process"],
     "manifest": {
         "design_ref": "3.6",
         "level_text": ("seeded search over (a) option sets x instrumented iterables x scripted clocks (stalls, "
@@ -122,7 +123,8 @@ SPECS["C01"] = _rec(
      "overwrite, a live reader object re-opened on another file, tables larger than the stdio buffer. Non-trivial = at "
      "least one perturbation fired; distinct = distinct event-log digests among those"),
     ["create_over_stale_bytes", "overwrite", "path_held_other_form", "object_reopened_on_other_file",
-     "table_larger_than_stdio_buffer", "interleaved_callers", "nonzero_offset"],
+     "table_larger_than_stdio_buffer", "interleaved_callers", "nonzero_offset", "long_lived_object_reopened",
+     "header_dict_read_from_an_earlier_file"],
     ("seeded search over dtypes x values x headers x entry points x prior path contents x caller interleavings; every read "
      "is compared bit-for-bit with the written table and the file's bytes are parsed independently after every write. "
      "Sampling, not proof."),
@@ -133,7 +135,8 @@ SPECS["C04"] = _rec(
     ("as C01 for delimited text (delimiters , : tab space ; |), integer/float/byte-string fields in either byte order; the "
      "text is additionally tokenised by an independent parser. Non-trivial = at least one perturbation fired"),
     ["create_over_stale_bytes", "overwrite", "path_held_other_form", "object_reopened_on_other_file",
-     "table_larger_than_stdio_buffer", "interleaved_callers"],
+     "table_larger_than_stdio_buffer", "interleaved_callers", "long_lived_object_reopened",
+     "header_dict_read_from_an_earlier_file", "several_writes_on_one_handle", "reopen_for_append"],
     ("seeded search as C01; values are compared exactly for integers and strings and to 16/7 significant digits for floats, "
      "NaN/inf preserved; independent tokenisation of the file's text. Sampling, not proof."),
     "working file system; magnitudes within 1e-14 (f8) / 1e-5 (f4) of the largest finite value are not generated (their "
@@ -183,7 +186,8 @@ SPECS["C19"] = {
              "esutil.stat.interplin", "scipy.integrate.cumulative_trapezoid", "numpy.linalg.cholesky"],
     "stub": ["the random source (SimRNG, legacy and new-style duck types): every deviate is drawn, recorded and sometimes "
              "forced to an edge by the simulator"],
-    "expect_reach": ["edge_value", "repeated_value", "target_value", "forced_rotation_path", "zero_width_box"],
+    "expect_reach": ["edge_value", "repeated_value", "target_value", "forced_rotation_path", "zero_width_box",
+                     "closed_end_value", "deviate_exactly_one", "deviate_on_a_run_of_equal_cumulative_values"],
     "assumptions": ["separations are judged with an atan2(|a x b|, a.b) reference in extended precision; 'inside' means "
                     "within 1e-9 deg plus the 1/cos(dec) conditioning of a latitude next to a pole",
                     "the accept/reject ('cut') sampler method is outside the statement and not exercised"],
@@ -215,7 +219,7 @@ SPECS["C10"] = {
     "stub": [],
     "expect_reach": ["interleaved_callers_on_one_object", "call_after_aborted_call", "call_aborted_half_way",
                      "scalar_array_alternation", "lazy_inverse_fit_built_late", "lazy_inverse_fit_built_first",
-                     "non_finite_input", "sky_position_far_from_the_field"],
+                     "non_finite_input", "sky_position_far_from_the_field", "another_wcs_object_created_and_used"],
     "assumptions": ["clean-room reference: pixel offset, CD matrix, TPV/SIP polynomial in the convention's order, t + xi*e + "
                     "eta*n normalised (extended precision)",
                     "crval2 = +90 exactly is only generated with an explicit LONPOLE=180 (the FITS default differs there)",
@@ -250,7 +254,8 @@ SPECS["C12"] = {
     "stub": [],
     "expect_reach": ["matcher_reused", "match_after_rejected_call", "stale_pair_file_at_output_path",
                      "interleaved_matchers", "rejected_call_size_mismatch", "rejected_call_unwritable",
-                     "oneshot_compared", "second_depth_compared"],
+                     "oneshot_compared", "second_depth_compared", "oneshot_object_reused",
+                     "oneshot_buffer_refilled_in_place", "presented_swapped", "presented_strided"],
     "assumptions": ["brute-force separations: atan2(|a x b|, a.b) in extended precision", "pairs within 1e-9 deg of the "
                     "radius are not constrained (as the property states)",
                     "depth and radius are drawn jointly so that one circle covers at most ~2e4 leaf triangles (cost bound); "
@@ -300,7 +305,8 @@ SPECS["C15"] = {
     "expect_reach": ["guarded_plain", "guarded_swapped", "guarded_strided", "guarded_strided_swapped", "guarded_offset",
                      "guarded_f4", "guarded_int", "guarded_zerod", "guarded_fortran", "array_reused_by_a_later_call",
                      "call_raised", "family_fields", "family_byteorder", "family_match", "family_hist", "family_stat",
-                     "family_coords", "family_cosmology", "family_htm"],
+                     "family_coords", "family_cosmology", "family_htm", "write_rejected_with_guarded_table",
+                     "write_through_read_only_object", "special_values_in_a_caller_array", "writer_option_padnull"],
     "assumptions": ["for the pure families (field operations, byte-order helpers, match/unique, histograms, statistics, "
                     "coordinates, cosmology, HTM lookup/pair counting) the per-call part of a session is generated inputs, not "
                     "fault simulation: there is no schedule, clock or fault to vary; what the session adds is the monitor on the "
